@@ -85,7 +85,7 @@ func Load(cfg Config) (*Engine, error) {
 	e := &Engine{Cfg: cfg, Pkgs: map[string]*packages.Package{}, SSAPkgs: map[string]*ssa.Package{}, Sets: map[string]*ContractSet{},
 		Sorts: NewSortCtx(), Contracts: map[*ssa.Package]map[*ssa.Function]*FuncContract{}, ByKey: map[string]*FuncContract{},
 		Lemmas: map[string]*FuncContract{}, FuncOf: map[*FuncContract]*ssa.Function{}, PkgOf: map[*FuncContract]*ssa.Package{},
-		globalsInit: map[*ssa.Global]*Term{}, Grace: 2 * time.Second}
+		globalsInit: map[*ssa.Global]*Term{}, Grace: 5 * time.Second}
 	e.Defs = newDefs(e)
 	overlay := map[string][]byte{}
 	var patterns []string
